@@ -408,6 +408,12 @@ func runChild(c Case, res *Result) {
 						}
 					}
 				}
+				if nApp > 0 && c.Idx%2 == 1 && b.extraAppend != nil && p <= 8 && (s == c.N/3+1 || s == 2*c.N/3+1) {
+					if e := b.extraAppend(); e != nil {
+						setErr.Add(1)
+					}
+					appendCalls.Add(1)
+				}
 				if nApp > 0 {
 					var mk uint8
 					for j := 0; j < nApp; j++ {
